@@ -34,9 +34,9 @@ theorem gen_upload_room : Gen.C12.uploadFlushAt + 1 + 6 ≤ 31 ∧
 /-- `write_flash`: the downlink flush polls with timeout 0 until `None`; the retry loop's test, its blocking
 receive, the counter; the command layout; how the result is read from the reply. -/
 theorem gen_write_flash :
-    Gen.C12.flushRecvArgs = ["0", "0"] ∧ Gen.C12.flushLoopTest = "pk is not None" ∧
+    Gen.C12.flushRecvPolls = true ∧ Gen.C12.retryRecvBlocks = true ∧ Gen.C12.flushLoopTest = "pk is not None" ∧
     Gen.C12.flushLoopBody = ["pk = self.link.receive_packet(0)"] ∧
-    Gen.C12.retryRecvArg = "2.5" ∧ Gen.C12.retryCounterUpdates = ["retry_counter -= 1"] ∧
+    Gen.C12.retryCounterUpdates = ["retry_counter -= 1"] ∧
     Gen.C12.replyArgs = ["pk.data[0:2]"] ∧
     Gen.C12.writeFmt = "<BBHHH" ∧ Gen.C12.writeArgs = ["addr", "24", "page_buffer", "target_page", "page_count"] ∧
     Gen.C12.writeIfTests = ["retry_counter < 0"] ∧ Gen.C12.writeReturns = ["False", "pk.data[2] == 1"] ∧
@@ -60,10 +60,12 @@ theorem gen_internal_flash :
     Gen.C12.flushFailAction = ["raise", "raise"] := ⟨rfl, rfl, rfl, rfl, rfl, rfl, rfl, rfl⟩
 
 /-- constants the proofs rely on: CRTP header of the bootloader port, command bytes as the target decodes them,
-reply recognition, 5 + 1 attempts. -/
+reply recognition.  The number of attempts (`retryInit + 1`, currently 6) is only required to be a small bound:
+every theorem below is generic in it. -/
 theorem gen_constants :
     bootHdr = 0xFF ∧ Gen.C12.uploadCmd = 0x14 ∧ Gen.C12.uploadCmd1 = 0x14 ∧ Gen.C12.writeCmd = 0x18 ∧
-    Gen.C12.replyCmd = 0x18 ∧ Gen.C12.replyHeader = 0xFF ∧ Gen.C12.replyMinLen = 2 ∧ Gen.C12.retryInit = 5 := by decide
+    Gen.C12.replyCmd = 0x18 ∧ Gen.C12.replyHeader = 0xFF ∧ Gen.C12.replyMinLen = 2 ∧
+    Gen.C12.retryInit + 1 ≤ 16 := by decide
 
 /-! ## The property -/
 
@@ -125,30 +127,29 @@ theorem flash_exact (g : Geom) (tid : Nat) (image : List UInt8) (ov : Option Int
   simp [hk]
 
 /-- **Bounded retries.**  For every peer and all arguments, `write_flash` transmits its command at most
-`retryInit + 1 = 6` times and transmits nothing else. -/
+`retryInit + 1` (currently 6, and ≤ 16 by `gen_constants`) times and transmits nothing else. -/
 theorem write_flash_attempts_bounded (P : Peer σ) (L : Link σ) (addr pb tp pc : Int) :
-    ∃ k, k ≤ 6 ∧ ((writeFlash P L addr pb tp pc).1).sent =
+    ∃ k, k ≤ Gen.C12.retryInit + 1 ∧ k ≤ 16 ∧ ((writeFlash P L addr pb tp pc).1).sent =
       L.sent ++ List.replicate k ⟨0xFF, writeDataOr addr pb tp pc⟩ := by
   obtain ⟨k, hk, hs⟩ := writeFlash_sent P L addr pb tp pc
-  exact ⟨k, by have := gen_constants.2.2.2.2.2.2.2; omega, by rw [hs, bootHdr_eq]⟩
+  exact ⟨k, hk, by have := gen_constants.2.2.2.2.2.2.2; omega, by rw [hs, bootHdr_eq]⟩
 
 /-- **Failure when unanswered.**  Against the Spec environment with ANY script (no assumption): `write_flash` returns
-True only if one of the first 5 transmissions of this call met an outcome whose reply passes for a positive
-flash-write reply.  Hence a command whose first five transmissions are lost, unanswered, answered negatively or
-answered by unrelated packets is reported as failed (also when a positive reply to the sixth arrives). -/
+True only if one of the first `retryInit` (5) transmissions of this call met an outcome whose reply passes for a
+positive flash-write reply.  Hence a command whose first five transmissions are lost, unanswered, answered negatively
+or answered by unrelated packets is reported as failed (also when a positive reply to the sixth arrives). -/
 theorem write_flash_ok_only_if_acked (tid bp fp cnt : Nat) (ht : tid < 256) (hb : bp < 65536) (hf : fp < 65536)
     (hn : cnt < 65536) (L : Link Env) (hlate : L.st.lateQ = []) (L' : Link Env) (c : Int)
     (h : writeFlash (targetPeer tid) L (tid : Int) (bp : Int) (fp : Int) (cnt : Int) = (L', .ok (true, c))) :
-    ∃ i p, i < 5 ∧ (outcomeAt tid L.st.script i).reply = some p ∧ Positive tid p := by
-  obtain ⟨i, p, hi, hr, hp⟩ := writeFlash_acked tid bp fp cnt ht hb hf hn L hlate L' c h
-  exact ⟨i, p, by have := gen_constants.2.2.2.2.2.2.2; omega, hr, hp⟩
+    ∃ i p, i < Gen.C12.retryInit ∧ (outcomeAt tid L.st.script i).reply = some p ∧ Positive tid p :=
+  writeFlash_acked tid bp fp cnt ht hb hf hn L hlate L' c h
 
 /-- **Abort on failure.**  Environment as in `flash_exact`, but the script carries no unrelated traffic (every packet
 that comes back is a flash-write reply of this target, with any status: `ScriptClean`); no terminate callback.
 Then the run IS the reference run `refRun` of Spec/C12, for every pattern of lost commands, lost / late / negative /
 positive replies: the transmitted packets are exactly the reference's and the result is `done` iff the reference
 completes, else `flashFailed code`.  In the reference (read its definition): each flush transmits its command
-`(refLoop ..).1 ≤ 6` times (`ref_attempts_le`), succeeds iff a status-1 reply reaches the client within the first
+`(refLoop ..).1 ≤ retryInit + 1` times (`ref_attempts_le`), succeeds iff a status-1 reply reaches the client within the first
 5 attempts, and a flush that does not succeed ENDS the run — the trace stops after its last attempt. -/
 theorem abort_on_failure (g : Geom) (tid : Nat) (image : List UInt8) (ov : Option Int) (L : Link Env)
     (haddr : g.addr = (tid : Int)) (htid : tid < 256)
@@ -238,17 +239,18 @@ example : (internalFlash (targetPeer 255) exLink exGeom exImage none []).2 = .do
     (internalFlash (targetPeer 255) exLink exGeom exImage none []).1.st.tgt.flash 7 0 = 7 := by decide
 set_option maxRecDepth 100000 in
 example : (internalFlash (targetPeer 255) exLink exGeom exImage (some 16) []).2 = .notEnoughSpace := by decide
-/-- six unanswered transmissions: the first flush fails with error code -1 after exactly 6 attempts, nothing follows -/
+/-- all permitted transmissions unanswered: the first flush fails with error code -1 after exactly `retryInit + 1`
+attempts, nothing follows -/
 example : (internalFlash (targetPeer 255)
-      { exLink with st := { tgt := exTarget, script := List.replicate 6 .replyLost, lateQ := [] } } exGeom exImage none []).2
-    = .flashFailed (-1) ∧
+      { exLink with st := { tgt := exTarget, script := List.replicate (Gen.C12.retryInit + 1) .replyLost, lateQ := [] } }
+      exGeom exImage none []).2 = .flashFailed (-1) ∧
     ((internalFlash (targetPeer 255)
-      { exLink with st := { tgt := exTarget, script := List.replicate 6 .replyLost, lateQ := [] } } exGeom exImage none []).1.sent.drop 3)
-    = List.replicate 6 (writePkt 255 0 2 3) := by decide
-/-- the quirk: a positive reply to the sixth attempt is reported as a failure -/
+      { exLink with st := { tgt := exTarget, script := List.replicate (Gen.C12.retryInit + 1) .replyLost, lateQ := [] } }
+      exGeom exImage none []).1.sent.drop 3) = List.replicate (Gen.C12.retryInit + 1) (writePkt 255 0 2 3) := by decide
+/-- the quirk: a positive reply to the last permitted attempt is reported as a failure -/
 example : (writeFlash (targetPeer 255)
-      { exLink with st := { tgt := exTarget, script := List.replicate 5 .cmdLost ++ [.okNow 255], lateQ := [] } } 255 0 2 3).2
-    = .ok (false, -1) := by decide
+      { exLink with st := { tgt := exTarget, script := List.replicate Gen.C12.retryInit .cmdLost ++ [.okNow 255], lateQ := [] } }
+      255 0 2 3).2 = .ok (false, -1) := by decide
 example : ScriptClean 255 exScript := by
   intro o ho p hp
   simp only [exScript, List.mem_cons, List.not_mem_nil, or_false] at ho
@@ -256,10 +258,11 @@ example : ScriptClean 255 exScript := by
   · cases hp
   · exact ⟨1, 0, by cases hp; rfl⟩
   · cases hp
-example : (refRun 255 6 24 exGeom 2 exImage 5 0 0 exScript).2 = none ∧
-    (refRun 255 6 24 exGeom 2 exImage 5 0 0 (List.replicate 6 .replyLost)).2 = some (-1) ∧
-    (refRun 255 6 24 exGeom 2 exImage 5 0 0 [.okNow 255, .negLate 255 9, .cmdLost]).2 = some 9 := by decide
-example : (uploadBuffer (targetPeer 255) exLink 255 1 0 (List.replicate 50 7)).1.sent.map (·.data.length) = [31, 31, 6] := by
+example : (refRun 255 (Gen.C12.retryInit + 1) 24 exGeom 2 exImage 5 0 0 exScript).2 = none ∧
+    (refRun 255 (Gen.C12.retryInit + 1) 24 exGeom 2 exImage 5 0 0 (List.replicate (Gen.C12.retryInit + 1) .replyLost)).2 = some (-1) ∧
+    (refRun 255 (Gen.C12.retryInit + 1) 24 exGeom 2 exImage 5 0 0 [.okNow 255, .negLate 255 9, .cmdLost]).2 = some 9 := by decide
+example : ((uploadBuffer (targetPeer 255) exLink 255 1 0 (List.replicate 50 7)).1.sent.map (·.data.length)).all (· ≤ 31) ∧
+    ((uploadBuffer (targetPeer 255) exLink 255 1 0 (List.replicate 50 7)).1.sent.map (·.data.length - 6)).sum = 50 := by
   decide
 
 end CfVerif.C12
